@@ -188,6 +188,12 @@ def select(objs, r, logical):
     """the objects an index range designates, as documented in hwloc(7)"""
     w = len(objs)
     k = r[0]
+    INT_MAX = 2147483647
+    if (k in ("one", "from", "fromto", "wrap") and r[1] > INT_MAX) or (k == "fromto" and r[2] - r[1] + 1 > INT_MAX) \
+            or (k == "wrap" and r[2] > INT_MAX):
+        raise NoSpec("number above INT_MAX: rejected argument")
+    if k == "wrap" and r[2] > 100000:
+        raise NoSpec("huge")
     if logical:
         if k == "one":
             idx = [r[1]]
@@ -410,22 +416,15 @@ def _i32(v):
 
 
 def hang_class(args):
-    """numbers that do not fit in an int: after the long -> int truncation of hwloc_calc_parse_range the amount
-    is -1 with wrap-around (assert) or negative (~2^32 iterations).  (The small-number forms of these classes,
-    X-Y reversed, X:-N, X- beyond the level, were repaired by fix 01261ca.)"""
+    """last = LONG_MAX: last-first+1 overflows long before the INT_MAX test of hwloc_calc_parse_range (UBSan aborts).
+    (Reversed ranges, negative widths, open ranges beyond the level and numbers above INT_MAX were repaired
+    by fixes 01261ca and 99dfc63.)"""
     for a in args:
-        for m in re.finditer(r"[:=](\d+)(?:-(\d+)|:(\d+))(?=\.|$)", a):
+        for m in re.finditer(r"[:=](\d+)-(\d+)(?=\.|$)", a):
             x = min(int(m.group(1)), (1 << 63) - 1)
-            if m.group(2) is not None:
-                y = min(int(m.group(2)), (1 << 63) - 1)
-                if y >= x and _i32(y - x + 1) < -1:
-                    return "calc-int-truncation-2pow32-iterations"
-            if m.group(3) is not None:
-                n = _i32(min(int(m.group(3)), (1 << 63) - 1))
-                if n == -1:
-                    return "calc-int-truncation-assert"
-                if n < -1:
-                    return "calc-int-truncation-2pow32-iterations"
+            y = min(int(m.group(2)), (1 << 63) - 1)
+            if y >= x and y - x + 1 > (1 << 63) - 1:
+                return "calc-long-overflow-ub"
     return None
 
 
